@@ -296,6 +296,10 @@ def period_bookkeeping(chk):
         def period(self, v):
             events.append('period')
             self._period = v
+
+        @property
+        def initial_state(self):
+            return self._initial_state
     dyn = Dyn()
     svc = Stub(domain_obj=Stub(dynamics=dyn))
     payload = Stub(x_full=xf, half_period=hp)
